@@ -8,6 +8,9 @@ import DS.Gen.Formats
 import DS.Model.World
 import DS.Model.Orbit
 import DS.Model.Constraints
+import DS.Model.Lookup
+import DS.Model.Cif
+import DS.Gen.Lookup
 import DS.Model.Adp
 import DS.Gen.DIndex
 import DS.Model.Parsers
@@ -166,11 +169,106 @@ def conHandle (ws : List String) : Option String :=
     | _ => some "bad-op"
   | _ => none
 
+/-! ### lookup (C11): string keys travel hex-encoded (UTF-8 bytes) -/
+
+def hexVal (c : Char) : Option Nat :=
+  if '0' ≤ c && c ≤ '9' then some (c.toNat - '0'.toNat)
+  else if 'a' ≤ c && c ≤ 'f' then some (c.toNat - 'a'.toNat + 10) else none
+
+def unhexBytes : List Char → Option (List UInt8)
+  | [] => some []
+  | a :: b :: rest => do
+    let x ← hexVal a
+    let y ← hexVal b
+    let r ← unhexBytes rest
+    pure ((x * 16 + y).toUInt8 :: r)
+  | _ => none
+
+def unhex (s : String) : Option String := do
+  let bs ← unhexBytes s.toList
+  String.fromUTF8? (ByteArray.mk bs.toArray)
+
+def hexOf (s : String) : String :=
+  let d := fun (n : Nat) => "0123456789abcdef".toList.getD n '0'
+  String.ofList (s.toUTF8.toList.flatMap (fun b => [d (b.toNat / 16), d (b.toNat % 16)]))
+
+/-- the identifier table as the model builds it from the generated settings and aliases -/
+def theTable : Option Lookup.Table := Lookup.buildTable Gen.allSG Gen.aliases
+
+def parseKey : List String → Option Lookup.Key
+  | ["n", v] => v.toNat?.map Lookup.Key.num
+  | ["s", h] => (unhex h).map Lookup.Key.str
+  | ["s"] => some (Lookup.Key.str "")
+  | _ => none
+
+def opsOfInts : List Int → List Op
+  | r11 :: r12 :: r13 :: r21 :: r22 :: r23 :: r31 :: r32 :: r33 :: t1 :: t2 :: t3 :: rest =>
+    ⟨r11, r12, r13, r21, r22, r23, r31, r32, r33, t1, t2, t3⟩ :: opsOfInts rest
+  | _ => []
+
+def lookupHandle (ws : List String) : Option String :=
+  match ws with
+  | ["lookup.dump"] =>
+    match theTable with
+    | none => some "keyerror"
+    | some t => some (String.intercalate " " (t.map (fun e => match e.1 with
+        | .num n => s!"n:{n}={e.2}"
+        | .str s => s!"s:{hexOf s}={e.2}")))
+  | "lookup.get" :: rest =>
+    match theTable, parseKey rest with
+    | some t, some k => match Lookup.getSG t k with
+      | some i => some (toString i)
+      | none => some "ValueError"
+    | none, _ => some "keyerror"
+    | _, none => some "bad-op"
+  -- lookup.find <12 ints per op …> : position of the tabulated setting with the same fingerprint
+  | "lookup.find" :: rest =>
+    match parseInts rest with
+    | some is =>
+      if is.length % 12 ≠ 0 then some "bad-op" else
+      let ops := opsOfInts is
+      match Lookup.findSG Gen.allSG ops with
+      | some i => some s!"{i} {Lookup.sameOrder ((Gen.allSG.getD i default).ops) ops}"
+      | none => some "ValueError"
+    | none => some "bad-op"
+  | _ => none
+
+/-! ### CIF expansion (C07) -/
+
+def parseSites : List String → Option (List Cif.Site)
+  | [] => some []
+  | x :: y :: z :: an :: u1 :: u2 :: u3 :: u4 :: u5 :: u6 :: u7 :: u8 :: u9 :: oc :: rest =>
+    match x.toInt?, y.toInt?, z.toInt?, [u1, u2, u3, u4, u5, u6, u7, u8, u9, oc].mapM parseRat with
+    | some xi, some yi, some zi, some [v1, v2, v3, v4, v5, v6, v7, v8, v9, o] =>
+      (parseSites rest).map (fun more =>
+        ({ label := "L", elem := "X", x := (xi, yi, zi), occ := o, aniso := an == "1",
+           U := ⟨v1, v2, v3, v4, v5, v6, v7, v8, v9⟩ } : Cif.Site) :: more)
+    | _, _, _, _ => none
+  | _ => none
+
+def cifHandle (ws : List String) : Option String :=
+  match ws with
+  -- cif.expand <sgno> <k> <E> then per site: x y z aniso(0/1) U(9 rationals) occ
+  | "cif.expand" :: sg :: k :: e :: rest =>
+    match sg.toNat?, k.toInt?, e.toInt?, parseSites rest with
+    | some sgno, some kk, some ee, some sites =>
+      match findSG sgno with
+      | some g =>
+        let out := Cif.expand g.ops kk ee sites
+        some (String.intercalate ";" (out.map (fun a =>
+          s!"{a.site} {a.img} {showV a.pos} {showRat a.occ} {if a.aniso then 1 else 0} {showMatQ a.U}")))
+      | none => some "no-such-sg"
+    | _, _, _, _ => some "bad-op"
+  | ["cif.label", l, j] => j.toNat?.map (fun n => Cif.imageLabel l n)
+  | _ => none
+
 /-- REGISTER model handlers here: each returns `none` for commands it does not own.
 Command names are prefixed by the model (`sym.`, `lat.`, `adp.`, `stru.`, ...). -/
 def handlers : List (List String → Option String) :=
   [ symHandle
   , conHandle
+  , lookupHandle
+  , cifHandle
   , DS.Parsers.parsersHandle DS.Gen.parsersCfg
   , fmtHandle
   , DS.Load.loadHandle
